@@ -197,6 +197,24 @@ def upvar_operand(unit, closure_body, idx):
     return parent, None
 
 
+def callable_body(unit, body, operand):
+    """the body that runs when `operand` is called: a closure (by the type of the local) or a function item passed by name (`.any(is_special)`)"""
+    k = operand.get('k') if isinstance(operand, dict) else None
+    if isinstance(k, dict) and k.get('fn'):
+        return unit.body(k['fn'])
+    l = op_local(operand)
+    if l is None:
+        return None
+    cp = unit.closure_of_type(body.local_ty(l))
+    if cp:
+        return unit.body(cp)
+    # a local that holds a function item (`let pred = is_special;`)
+    dd = direct_def(body, operand)
+    if dd[0] == 'const' and isinstance(dd[1], dict) and dd[1].get('fn'):
+        return unit.body(dd[1]['fn'])
+    return None
+
+
 def closure_creation(unit, closure_path):
     """(creating body, bb, stmt) of the closure aggregate"""
     cb = unit.body(closure_path)
